@@ -3,6 +3,7 @@ from __future__ import annotations
 
 import contextlib
 import io
+import os
 import shutil
 import tempfile
 import warnings
@@ -163,10 +164,14 @@ def run_segments(cfg, segments, use_folder=None):
                     try:
                         rets.append(cal.calibrate(n))
                     except ModelRefuses as e:        # the outcome of this run: which call raised what, and the history so far
-                        rets.append(("raised", type(e).__name__, str(e)))
+                        # (which of several refused seeds of one batch is reported first is up to the worker pool: only the fact and the class count)
+                        rets.append(("raised", type(e).__name__))
                         break
                     continue
                 rets.append(cal.calibrate(n))
+                if folder and os.path.exists(os.path.join(folder, "calibration_params.json")):
+                    from vp import leftovers
+                    leftovers.plant_stale_pickles(folder)      # left-over files under names this version of the code knows (no-op on the unchanged tree)
                 if boundary == "restore":
                     from vp.deep import deep, diff
                     saved = deep(cal)
